@@ -256,7 +256,14 @@ def rebase(events, base):
 def validate(res, wd, histories):
     """histories: (description, events starting with reset, replay job or None).  Histories of tables with and without a
     reserved first slot are validated separately (NilIndices is a constant of InternAbs)."""
-    for reserved in (False, True):
+    ths = [threading.Thread(target=validate_group, args=(res, wd, histories, reserved)) for reserved in (False, True)]
+    for t in ths:
+        t.start()
+    for t in ths:
+        t.join()
+
+def validate_group(res, wd, histories, reserved):
+    if True:
         hs = [h for h in histories if h[1] and h[1][0]["e"] == "reset" and h[1][0]["b"] == reserved]
         consts = ("CONSTANT Threads = {0, 1, 2, 3, 4, 5, 6, 7, 8}\nCONSTANT Values = {}\nCONSTANT Indices = {}\n"
                   "CONSTANT NilIndices <- %s\nCONSTANT Mode = \"%%s\"" % ("NilRefs" if reserved else "NoRefs"))
@@ -270,21 +277,27 @@ def validate(res, wd, histories):
             acc, consumed, r = tracecheck.validate("InternAbsTrace", events, wd, name, constants=consts % "eager", timeout=2400)
             res.count("trace_events", len(events) if acc else consumed)
             if acc is None:
-                res.infra_errors.append("trace validation failed to run: " + str(r["error"])); return
-            res.add_tlc(r)
+                res.infra_errors.append("trace validation failed to run: " + str(r["error"])[:3000]); return
+            with res._lock:
+                res.add_tlc(r)
             if acc:
-                res.cov["traces_validated_against_impl"] += len(hs) - start
+                res.count("traces_validated_against_impl", len(hs) - start)
                 break
             hi = owner[min(consumed, len(events) - 1)]
-            res.cov["traces_validated_against_impl"] += hi - start
+            res.count("traces_validated_against_impl", hi - start)
             # the fast path rejected this history: decide with the complete linearization search
             desc, hev, job = hs[hi]
             acc2, cons2, r2 = tracecheck.validate("InternAbsTrace", hev, wd, name + "_general", constants=consts % "general", timeout=1200)
             if acc2 is None:
-                res.infra_errors.append("general trace validation of a rejected history failed to run: " + str(r2["error"])); return
-            res.add_tlc(r2)
+                res.infra_errors.append("general trace validation of a rejected history failed to run: " + str(r2["error"])[:3000]); return
+            with res._lock:
+                res.add_tlc(r2)
             if acc2:
-                res.count("eager_fallbacks"); res.cov["traces_validated_against_impl"] += 1
+                res.count("eager_fallbacks"); res.count("traces_validated_against_impl")
+                with res._lock:
+                    res.cov.setdefault("eager_fallback_examples", [])
+                    if len(res.cov["eager_fallback_examples"]) < 3:
+                        res.cov["eager_fallback_examples"].append({"history": desc, "eager stopped at": _short(events[min(consumed, len(events) - 1)])})
             else:
                 at = min(cons2, len(hev) - 1)
                 path = _save(wd, "rejected_%d_%d" % (int(reserved), hi), [job] if job else [desc] + [repr(e) for e in hev])
@@ -312,6 +325,9 @@ def run(tier, replay_path=None):
         print(p.stdout); print(p.stderr[-2000:]); return 0
     quick = tier == "quick"
     lock = threading.Lock()
+    phases = res.cov.setdefault("phase_seconds", {})
+    def phase(name, t0):
+        phases[name] = round(time.time() - t0, 1)
     # S: the abstract spec says what C31 says; the implementation-shaped spec has the properties and refines it
     t0 = time.time()
     r = tlc.run_tlc(os.path.join(SPEC, "MC_InternAbs.tla"), os.path.join(SPEC, "MC_InternAbs.cfg"), os.path.join(wd, "abs"), timeout=900, workers=4)
@@ -332,15 +348,22 @@ def run(tier, replay_path=None):
         t.start()
     # R + T (the driver work overlaps the model checking)
     histories = []
+    t1 = time.time()
     for cfg in ["MC_Flyweight2gr.cfg", "MC_Flyweight2mr.cfg"] + ([] if quick else ["MC_Flyweight2cr.cfg"]):
-        replay(res, wd, cfg, drv, 1200 if quick else None, histories)
-    random_schedules(res, wd, drv, 1500 if quick else 20000, histories)
-    stress(res, wd, drv, 24 if quick else 60, 120 if quick else 400, histories, rounds=1 if quick else 6)
+        replay(res, wd, cfg, drv, 800 if quick else None, histories)
+    phase("replay", t1); t1 = time.time()
+    random_schedules(res, wd, drv, 1000 if quick else 20000, histories)
+    phase("random_schedules", t1); t1 = time.time()
+    stress(res, wd, drv, 30 if quick else 80, 100 if quick else 300, histories, rounds=1 if quick else 6)
+    phase("stress", t1); t1 = time.time()
     for t in ths[:4]:
         t.join()
+    phase("model_checking_quick_configs(parallel, from start)", t0)
     for t in ths[4:]:
         t.start()
+    t1 = time.time()
     validate(res, wd, histories)
+    phase("trace_validation", t1)
     for t in ths[4:]:
         t.join()
     taken = res.cov.pop("_taken", set())
